@@ -25,6 +25,14 @@ def worlds():
 
     d = {k: v for k, v in registry.WORLDS.items() if not k.endswith("(closed)")}  # a frozen-bar variant of a path world below
     d.update({k: v for k, v in registry.PATH_WORLDS.items() if k != "deribit(many)+uni"})  # same markets as deribit+uni, built for C05's bar-index question
+
+    def overdraft():
+        # an account that may go into the red (Actuator(allow_negative_balance=True)): oversized purchases are accepted, a negative balance is a debt
+        w = registry.WORLDS["uni(q0)"]()
+        w.name = "uni(q0,overdraft)"
+        w.allow_negative = True
+        return w
+    d["uni(q0,overdraft)"] = overdraft
     return d
 
 
@@ -128,6 +136,11 @@ def scripts_for(world, thorough):
             # 121 bars per run: the pool's own operations are explored in the pool worlds, here two of them suffice beside the option market's
             labels = [l for l in labels if l.startswith("deribit.") or l in ("uni.add[in,part,part]", "uni.sell[part]")]
         dev = [o.label for o in ops if o.deviation and any(t in o.label for t in ("all", "None", "over", "lp"))][:: 3]
+        # operations that are refused AFTER they have started to move things (a mint that hands an LP position in and is then found unsafe): what is left
+        # behind must still be valued exactly once
+        dev += [o.label for o in ops if o.deviation and o.label.endswith(",beyond,lp]") and o.label not in dev]
+        if getattr(world, "allow_negative", False):
+            dev += [o.label for o in ops if o.deviation and "over" in o.label and o.label not in dev]
         base = [(0, "on_bar", l) for l in root]
         out.append(base)
         for lab in labels + dev:
